@@ -683,12 +683,22 @@ def _targets():
     add('SimpleVoteValidator', lambda: vvote.SimpleVoteValidator(), lambda rng: call('validate', rng.choice(CN + [S(['c0'])])))
     add('ApprovalVoteValidator', lambda: vvote.ApprovalVoteValidator((1, 2)),
         lambda rng: call('validate', S(rng.sample(CN, rng.randint(0, 3)))))
-    add('RankedVoteValidator', lambda: vvote.RankedVoteValidator((1, 3)), lambda rng: call('validate', g_ranking(rng, CN[:4])))
-    add('RankedVoteValidator:perrank', lambda: vvote.RankedVoteValidator(rank_vote_count_bounds={0: (1, 1), 1: (1, 2)}),
-        lambda rng: call('validate', g_ranking(rng, CN[:4])))
-    add('ScoreVoteValidator', lambda: vvote.ScoreVoteValidator((1, 3), (0, 9)), _c_validate_score)
-    add('RangeVoteValidator', lambda: vvote.RangeVoteValidator((0, 4), (1, 3)), _c_validate_score)
-    add('EnumScoreVoteValidator', lambda: vvote.EnumScoreVoteValidator([0, 1, 2, 3]), _c_validate_score)
+    add('RankedVoteValidator', lambda: vvote.RankedVoteValidator((1, 3)), lambda rng: call('validate', g_ranking(rng, CN[:4])),
+        model='rankval', cfg={'total': [1, 3], 'explicit': [], 'dflt': [1, 1]})
+    add('RankedVoteValidator:perrank', lambda: vvote.RankedVoteValidator(rank_vote_count_bounds={0: (1, 1), 1: (1, 2), 3: (2, 2)}),
+        lambda rng: call('validate', g_ranking(rng, CN[:4])),
+        model='rankval', cfg={'total': [None, None], 'explicit': [[0, [1, 1]], [1, [1, 2]], [3, [2, 2]]], 'dflt': [None, None]})
+    add('ScoreVoteValidator', lambda: vvote.ScoreVoteValidator((1, 3), (0, 9)), _c_validate_score,
+        model='scoreval', cfg={'nscorings': [1, 3], 'explicit': [], 'dflt': [0, 9], 'post': {'kind': 'none'}})
+    add('ScoreVoteValidator:persize', lambda: vvote.ScoreVoteValidator((None, None), {1: (0, 3), 2: (2, 6)}), _c_validate_score,
+        model='scoreval', cfg={'nscorings': [None, None], 'explicit': [[1, [0, 3]], [2, [2, 6]]], 'dflt': [None, None],
+                               'post': {'kind': 'none'}})
+    add('RangeVoteValidator', lambda: vvote.RangeVoteValidator((0, 4), (1, 3)), _c_validate_score,
+        model='scoreval', cfg={'nscorings': [1, 3], 'explicit': [], 'dflt': [None, None],
+                               'post': {'kind': 'range', 'bounds': [0, 4]}})
+    add('EnumScoreVoteValidator', lambda: vvote.EnumScoreVoteValidator([0, 1, 2, 3]), _c_validate_score,
+        model='scoreval', cfg={'nscorings': [None, None], 'explicit': [], 'dflt': [None, None],
+                               'post': {'kind': 'enum', 'levels': [0, 1, 2, 3]}})
     add('BasicNominator', lambda: vcand.BasicNominator(), _c_nominate)
     add('PartyNominator', lambda: vcand.PartyNominator(), _c_nominate)
     add('PersonNominator', lambda: vcand.PersonNominator(), _c_nominate)
@@ -947,6 +957,10 @@ def _diff_paths(a, b, path=''):
     return [path or '<self>']
 
 
+MODEL_STATE = {'pav': ('_coefs',), 'borda': ('rank_scorer',), 'rankval': ('rank_vote_count_checkers',),
+               'scoreval': ('sum_checkers',)}
+
+
 def _state(obj):
     if isinstance(obj, type):
         return {'cls': obj.__name__}
@@ -960,6 +974,10 @@ def _model_state(t, obj):
     if t.get('model') == 'borda':
         sc = obj.rank_scorer
         return {'n': sc.n_candidates, 'scores': None if sc._scores is None else [num_str(x) for x in sc._scores]}
+    if t.get('model') in ('rankval', 'scoreval'):
+        store = obj.rank_vote_count_checkers if t['model'] == 'rankval' else obj.sum_checkers
+        return [[k, [None if c.min_value is None else num_str(c.min_value), None if c.max_value is None else num_str(c.max_value)]]
+                for k, c in store.items()]
     return None
 
 
@@ -1006,7 +1024,7 @@ def run_history(case):
             obs['mutated'].append({'call': i, 'run': 'shared', 'target': t['name'], **mut})
         if s0 != s1:
             paths = _diff_paths(s0, s1)
-            ok = tuple(t.get('state_ok', ())) + {'pav': ('_coefs',), 'borda': ('rank_scorer',)}.get(t.get('model'), ())
+            ok = tuple(t.get('state_ok', ())) + MODEL_STATE.get(t.get('model'), ())
             un = [p for p in paths if not any(p == o or p.startswith(o + '.') for o in ok)]
             obs['drift'].append({'call': i, 'target': t['name'], 'class': type(obj).__name__, 'paths': paths,
                                  'unmodelled': un})
@@ -1068,7 +1086,7 @@ def oracle(case, obs):
 
 REQUIRED_COUNTERS = ['every_class', 'singleton', 'pav_cache_grows', 'pav_small_after_large', 'borda_n_changes',
                      'seeded_random', 'interleaved_objects', 'defaults_used', 'prev_gains_given', 'nested_prev_gains',
-                     'model:pav', 'model:borda', 'model:rng']
+                     'model:pav', 'model:borda', 'model:rng', 'model:rankval', 'model:scoreval', 'checker_materialised']
 
 
 def _mk(targets, calls, tags):
@@ -1092,6 +1110,8 @@ def _tag_calls(TG, targets, calls, tags):
             tags.append('singleton')
         if t.get('model'):
             tags.append('model:' + t['model'])
+            if t['model'] in ('rankval', 'scoreval'):
+                tags.append('checker_materialised')
     if len(set(c['t'] for c in calls)) > 1:
         tags.append('interleaved_objects')
     return tags
@@ -1191,3 +1211,229 @@ RULE = ('call sequences of length 2-6 (profiles of 2-5 candidates, 1-5 ballot ty
         'and of the module-level singletons; pools of 2-3 different objects interleaved in one history (all random components '
         'sharing the global RNG; singletons next to the evaluators that use them). Non-trivial = at least two calls and at least '
         'one call that returns a result; distinct by canonical request.')
+
+
+# ------------------------------------------------------------------------------------------------
+# the Lean state machines on the same histories
+
+def _cid(name):
+    return int(name[1:])
+
+
+def _bj(x):
+    return None if x is None else num_str(Fraction(x))
+
+
+def _ballot_line(b):
+    return [[_cid(c) for c in it['S']] if isinstance(it, dict) else _cid(it) for it in b['T']]
+
+
+def _machine(case):
+    TG = TARGETS()
+    ts = [TG[n] for n in case['targets']]
+    if len(ts) == 1 and ts[0].get('model'):
+        return ts[0]['model']
+    if any(t.get('seed') is not None for t in ts):
+        return 'rng'
+    return 'none'
+
+
+def model_line(case):
+    TG = TARGETS()
+    m = _machine(case)
+    t0 = TG[case['targets'][0]]
+    line = {'op': 'history', 'machine': m}
+    if m == 'pav':
+        line['calls'] = [{'votes': [[sorted(_cid(c) for c in b['S']), num_str(decode(w))] for b, w in c['a'][0]['D']],
+                          'n': c['a'][1]} for c in case['calls']]
+        if case.get('old'):
+            line['old'] = True
+    elif m == 'borda':
+        line['base'] = t0['base']
+        line['calls'] = [[[_ballot_line(b), num_str(decode(w))] for b, w in c['a'][0]['D']] for c in case['calls']]
+    elif m == 'rankval':
+        cfg = t0['cfg']
+        line['cfg'] = {'total': [_bj(x) for x in cfg['total']], 'dflt': [_bj(x) for x in cfg['dflt']],
+                       'explicit': [[k, [_bj(x) for x in b]] for k, b in cfg['explicit']]}
+        line['calls'] = [_ballot_line(c['a'][0]) for c in case['calls']]
+    elif m == 'scoreval':
+        cfg = t0['cfg']
+        post = dict(cfg['post'])
+        if 'bounds' in post:
+            post['bounds'] = [_bj(x) for x in post['bounds']]
+        if 'levels' in post:
+            post['levels'] = [_bj(x) for x in post['levels']]
+        line['cfg'] = {'nscorings': [_bj(x) for x in cfg['nscorings']], 'dflt': [_bj(x) for x in cfg['dflt']],
+                       'explicit': [[k, [_bj(x) for x in b]] for k, b in cfg['explicit']], 'post': post}
+        # the vote is a frozenset of (candidate, score) pairs: identical pairs collapse
+        line['calls'] = [sorted([_cid(c), num_str(sc)] for c, sc in decode(c['a'][0])) for c in case['calls']]
+    elif m == 'rng':
+        reqs = {}
+        calls = []
+        for c in case['calls']:
+            t = TG[case['targets'][c['t']]]
+            if t.get('seed') is not None:
+                key = json.dumps([t['name'], c['m'], c['a'], c.get('k', {})], sort_keys=True)
+                calls.append({'seed': t['seed'], 'req': reqs.setdefault(key, len(reqs))})
+            else:
+                calls.append({'other': 1})
+        line['calls'] = calls
+    return line
+
+
+def _unmodelled(obs):
+    for d in obs['drift']:
+        if d['unmodelled']:
+            return (f"unmodelled state: attribute(s) {d['unmodelled']} of the shared {d['class']} instance ({d['target']}) "
+                    f"changed during call {d['call']} and no state-machine model covers them")
+    return None
+
+
+def _exc_of(o):
+    return o.get('exc') if isinstance(o, dict) else None
+
+
+def compare(case, iobs, mobs):
+    if 'err' in iobs:
+        return None
+    un = _unmodelled(iobs)
+    if un:
+        return un
+    m = _machine(case)
+    if m == 'none':
+        return None if mobs == {'machine': 'none'} else f'unexpected model answer {mobs}'
+    outs = mobs['outs']
+    if len(outs) != len(case['calls']):
+        return 'model answered a different number of calls'
+    for i, c in enumerate(case['calls']):
+        io, mo = iobs['shared'][i], outs[i]
+        where = f'call {i}: '
+        if m == 'rng':
+            TG = TARGETS()
+            t = TG[case['targets'][c['t']]]
+            if t.get('seed') is None:
+                continue
+            if not mo or not mo[0] or mo[0][0] != t['seed']:
+                return where + f'model draw was not preceded by a reseed: {mo}'
+            if io != iobs['fresh'][i]:
+                return where + (f'output of the seeded component on the shared generator {json.dumps(io)[:120]} is not the '
+                                f'function of (seed, request) the model says it is ({json.dumps(iobs["fresh"][i])[:120]})')
+            continue
+        st_i, st_m = iobs['mstate'][i], mobs['states'][i]
+        if m == 'pav':
+            if st_i['coefs'] != st_m:
+                return where + f'_coefs impl={st_i["coefs"]} model={st_m}'
+            if 'err' in mo:
+                if _exc_of(io) != mo['err']:
+                    return where + f'impl={json.dumps(io)[:120]} model={mo}'
+                continue
+            if 'ok' not in io:
+                return where + f'impl={json.dumps(io)[:120]} model={mo}'
+            sel = [_cid(x) for x in io['ok']['L']]
+            drops = {cc: Fraction(d) for cc, d in mo['drops']}
+            if sorted(sel) != sorted(mo['sel']) or set(sel) != set(drops):
+                return where + f'elected impl={sel} model={mo["sel"]}'
+            seq = [drops[x] for x in sel]
+            if any(a < b for a, b in zip(seq, seq[1:])):
+                return where + f'order impl={sel} is not by the model\'s satisfaction drops {mo["drops"]}'
+        elif m == 'borda':
+            if st_i != st_m:
+                return where + f'scorer state impl={st_i} model={st_m}'
+            if isinstance(mo, dict) and 'err' in mo:
+                if _exc_of(io) != mo['err']:
+                    return where + f'impl={json.dumps(io)[:120]} model={mo}'
+                continue
+            if 'ok' not in io:
+                return where + f'impl={json.dumps(io)[:120]} model={mo}'
+            iv = {_cid(k): Fraction(decode(v)) for k, v in io['ok']['D']}
+            mv = {k: Fraction(v) for k, v in mo}
+            if iv != mv:
+                return where + f'positional votes impl={iv} model={mv}'
+        elif m in ('rankval', 'scoreval'):
+            if st_i != st_m:
+                return where + f'checker store impl={st_i} model={st_m}'
+            if mo == 'ok':
+                if io != {'ok': None}:
+                    return where + f'impl={json.dumps(io)[:120]} model=ok'
+            else:
+                want = {'VoteError': 'VoteError'}.get(mo['err'], mo['err'])
+                if _exc_of(io) != want:
+                    return where + f'impl={json.dumps(io)[:120]} model={mo}'
+    return None
+
+
+def signature(case, clause):
+    return f"{case.get('op')}:{clause}"
+
+
+def describe(case):
+    TG = TARGETS()
+    lines = []
+    for i, n in enumerate(case['targets']):
+        lines.append(f'obj{i} = <{n}>   # one shared instance; compared with a fresh instance per call')
+    for c in case['calls']:
+        args = ', '.join([repr(decode(a)) for a in c['a']] + [f'{k}={decode(v)!r}' for k, v in c.get('k', {}).items()])
+        lines.append(f"obj{c['t']}.{c['m']}({args})")
+    return '\n'.join(lines)
+
+
+def shrink_candidates(case):
+    calls = case['calls']
+    # drop a call
+    for i in range(len(calls)):
+        if len(calls) > 1:
+            cs = calls[:i] + calls[i + 1:]
+            used = sorted(set(c['t'] for c in cs))
+            remap = {t: j for j, t in enumerate(used)}
+            yield dict(case, targets=[case['targets'][t] for t in used],
+                       calls=[dict(c, t=remap[c['t']]) for c in cs])
+    # drop a ballot / dict entry of the first argument, a keyword argument
+    for i, c in enumerate(calls):
+        for k in list(c.get('k', {})):
+            kk = dict(c['k'])
+            del kk[k]
+            yield dict(case, calls=calls[:i] + [dict(c, k=kk)] + calls[i + 1:])
+        if c['a'] and isinstance(c['a'][0], dict) and 'D' in c['a'][0] and len(c['a'][0]['D']) > 1:
+            for j in range(len(c['a'][0]['D'])):
+                a0 = {'D': c['a'][0]['D'][:j] + c['a'][0]['D'][j + 1:]}
+                yield dict(case, calls=calls[:i] + [dict(c, a=[a0] + c['a'][1:])] + calls[i + 1:])
+
+
+REQUIRED = ['history_independent_pav', 'pav_output_is_spec', 'pav_cache_invariant', 'pav_cache_contents',
+            'history_dependent_pav_old_witness',
+            'history_independent_borda', 'borda_state_after', 'history_dependent_borda_setOnce_witness',
+            'scorer_raw_protocol_witness',
+            'history_independent_seeded', 'seeded_draws_function_of_seed', 'seeded_draws_explicit',
+            'history_dependent_unseeded_witness',
+            'history_independent_rankval', 'history_independent_scoreval', 'rankval_store_invariant',
+            'history_dependent_counting_factory_witness']
+UNPROVED = []
+NOT_VERIFIED = [
+    'MONITORED, not proved: argument non-mutation (deep ordered snapshot of every argument before / after every call, shared '
+    'and fresh runs) — a fact about Python object identity that no Lean model exhibits',
+    'MONITORED, not proved: shared default arguments stay empty / unchanged (`__defaults__` and `__kwdefaults__` of every '
+    'function of the library compared with their import-time snapshot after every run)',
+    'MONITORED, not proved: classes without a state-machine model have no state — `vars(obj)` of every shared instance is '
+    'snapshotted around every call; a drifting attribute not covered by a model is a broken correspondence',
+    'the process-wide `random` generator is modelled abstractly (any state type, any deterministic reseed / draw); that '
+    'CPython\'s random.seed(s) fully determines the following draws is assumed',
+    'frozenset iteration order (PAV candidate pool, satisfaction-drop dict) is modelled as first-occurrence order; the '
+    'comparison with the implementation ignores the order of candidates with equal satisfaction drops',
+    'validator models assume candidates the nominator accepts and well-formed (candidate, score) pairs',
+    'a fresh instance of a module-level singleton is a deep copy taken before the first call of the process reaches it',
+]
+TECHNIQUE = ('Lean 4 proofs of history independence of state-machine models (cache invariants as inductive invariants) + '
+             'differential run of the models and the implementation on the same call histories + runtime monitors for '
+             'argument mutation, shared defaults and unmodelled state')
+LEVEL_TEXT = ('Every component of votelib found to carry state between calls (PAV coefficient cache, Borda scorer state written by '
+              'the positional converter, the process-wide random generator reseeded by seeded components, the defaultdicts of '
+              'magnitude checkers in the ranked / score validators) is modelled as a state machine step : State -> Call -> State x Out '
+              'mirroring the code, and history independence (the answer after ANY call history equals the answer of a fresh '
+              'instance) is proved for all histories and inputs, together with witnesses that the pre-fix / mutated step functions '
+              'are history dependent.  The models are run through the driver on the same call sequences as the implementation and '
+              'compared with its observable state (obj._coefs, scorer.n_candidates/_scores, the checker dicts) and outputs.  '
+              'Argument non-mutation, empty shared defaults and the absence of state on all other classes are MONITORED on the '
+              'implementation (partial: not proved), for every public evaluator / converter / validator class and the module singletons.')
+LEVEL_NOTE = ('Trusted: Lean kernel + propext/Classical.choice/Quot.sound; translate.py for borda_scores; the correspondence harness '
+              '(bounded by its generator: histories of length <= 6, 2-5 candidates); determinism of random.seed; CPython dict order.')
+EXHAUSTIVE = {'thorough': False}
